@@ -43,8 +43,8 @@ def main():
             continue
         ck = r['checks'][r['property']]
         keys = [l.split('#', 1)[1].split(':', 1)[0].strip() if '#' in l else '' for l in ck['lines'] if l.startswith('VIOLATION')]
-        full = []
-        for l in ck['lines']:
+        full = list(ck.get('new_keys') or [])
+        for l in ([] if full else ck['lines']):
             if l.startswith('VIOLATION') and '#' in l:
                 k = l.split('#', 1)[1].strip()
                 k = k.split(' (x')[0] if ' (x' in k.split(': ')[0] else k.split(': ')[0]
@@ -62,13 +62,15 @@ def main():
             n_later += 1
         else:
             n_first += 1
+        if r.get('judged_on'):
+            when += ' (overlaps a later repair: judged differentially on commit %s)' % r['judged_on']
         out.append('| %s | %s | %s | %s -> %s | %s | `%s` | %s |' % (
-            i, r['property'], 'pass' if r['pytest'].startswith('ok') else 'FAIL', r.get('demo_unpatched_rc'), r.get('demo_patched_rc'),
+            i, r['property'], 'pass' if r.get('pytest', '').startswith('ok') else 'FAIL', r.get('demo_unpatched_rc'), r.get('demo_patched_rc'),
             'yes' if caught else 'no', full[0] if full else '', when))
         mp = os.path.join(S, i, 'meta.json')
         meta = json.load(open(mp))
         meta['ran'] = 'see RESULTS.jsonl (tools/seedcheck.py): patch applied to a scratch copy, repository tests in a private netns, demo with/without patch, ./check %s quick with LOMOND_SRC=<copy>' % r['property']
-        meta['result'] = dict(repo_tests=r['pytest'], demo_clean_rc=r.get('demo_unpatched_rc'), demo_changed_rc=r.get('demo_patched_rc'),
+        meta['result'] = dict(repo_tests=r.get('pytest'), judged_on=r.get('judged_on') or 'HEAD', demo_clean_rc=r.get('demo_unpatched_rc'), demo_changed_rc=r.get('demo_patched_rc'),
                               caught_by=('%s quick' % r['property']) if caught else None, violation=full[0] if full else None,
                               first_attempt=i not in missed)
         json.dump(meta, open(mp, 'w'), indent=1)
